@@ -337,6 +337,8 @@ class Gen(object):
         if isinstance(n, ast.IfExp):
             a, b = unify(ev(n.body), ev(n.orelse))
             return z3.If(ev(n.test), a, b)
+        if isinstance(n, ast.Attribute) and isinstance(n.value, ast.Name) and isinstance(env.get(n.value.id), SObject):
+            return env[n.value.id].attrs[n.attr]
         if isinstance(n, ast.Subscript):
             l = ev(n.value)
             if isinstance(l, SDict):
